@@ -159,13 +159,44 @@ fn plan_scenario(c: &mut Case, shifting_ok: bool, fin: &mut dyn FnMut(&mut Case,
             }
         }
     }
+    // near-twins of struct / array types the module already has (one field's mutability flipped,
+    // everything else - supertype, finality - equal): additions that must MISS the
+    // de-duplication map whatever the hasher keys are.  Drawn after everything else on the tape.
+    let mut twin_adds: Vec<crate::gen::GType> = vec![];
+    if !component {
+        let gc: Vec<&crate::gen::GType> = m
+            .types
+            .iter()
+            .filter(|t| match &t.comp {
+                crate::gen::GComposite::Struct { fields } => !fields.is_empty(),
+                crate::gen::GComposite::Array { .. } => true,
+                _ => false,
+            })
+            .collect();
+        if !gc.is_empty() && c.t.chance(1, 2) {
+            let n = c.t.range(1, 4);
+            for _ in 0..n {
+                let mut t = (*c.t.pick(&gc)).clone();
+                match &mut t.comp {
+                    crate::gen::GComposite::Struct { fields } => {
+                        let k = c.t.below(fields.len());
+                        fields[k].1 = !fields[k].1;
+                    }
+                    crate::gen::GComposite::Array { mutable, .. } => *mutable = !*mutable,
+                    _ => {}
+                }
+                twin_adds.push(t);
+            }
+            c.class("twin_of_an_existing_gc_type_added");
+        }
+    }
     let special = plan.iter().filter(|i| i.mode.is_special()).count();
     let dup_types = {
         let mut seen = BTreeSet::new();
         din.types.iter().any(|t| !seen.insert(t.clone()))
     };
     let plan_txt = plan.iter().map(|i| format!("  func {} instr {} {} via {} marker {}", i.func, i.instr, i.mode.name(), i.path.name(), i.marker)).collect::<Vec<_>>().join("\n");
-    c.note(|| format!("MODULE (component wrapper: {})\n{}\nPLAN\n{}\nTYPE ADDITIONS {:?}", component, dm::print_wat(&bytes), plan_txt, type_adds));
+    c.note(|| format!("MODULE (component wrapper: {})\n{}\nPLAN\n{}\nTYPE ADDITIONS {:?}\nTWIN TYPE ADDITIONS {:?}", component, dm::print_wat(&bytes), plan_txt, type_adds, twin_adds));
     c.class(if component { "scenario:plan_component" } else { "scenario:plan_module" });
     if dup_types && (plan.iter().any(|i| i.mode == IMode::FuncExit) || !type_adds.is_empty()) {
         c.class("duplicate_types_and_type_lookup");
@@ -197,6 +228,18 @@ fn plan_scenario(c: &mut Case, shifting_ok: bool, fin: &mut dyn FnMut(&mut Case,
                 if shifting_ok {
                     module.add_import_func("ta".to_string(), format!("t{}", k), ty);
                 }
+            });
+        }
+        for t in &twin_adds {
+            let sup = t.supertype.map(wirm::ir::id::TypeID);
+            let _ = run_lib(|| match &t.comp {
+                crate::gen::GComposite::Struct { fields } => {
+                    let f: Vec<wirm::DataType> = fields.iter().map(|(s, _)| super::small::storage_dt(s)).collect();
+                    let mu: Vec<bool> = fields.iter().map(|(_, m)| *m).collect();
+                    module.types.add_struct_type_with_params(f, mu, sup, t.is_final, false, None)
+                }
+                crate::gen::GComposite::Array { elem, mutable } => module.types.add_array_type_with_params(super::small::storage_dt(elem), *mutable, sup, t.is_final, false, None),
+                _ => wirm::ir::id::TypeID(0),
             });
         }
         fin(c, Built::M(&mut module), &info)
@@ -428,7 +471,7 @@ impl Driver for Deterministic {
         "C04"
     }
     fn rule(&self) -> &'static str {
-        "tape -> scenario as in C05 (edit history over the C06/C07/C08 alphabets, or an instrumentation plan of every mode through every path, plus add_func_type of signatures the module already has; bases contain duplicate identical types) -> the scenario is built from scratch and encoded R times in the process (R = 3; every build creates fresh hash maps with fresh hasher keys) and the R outputs (bytes, or the panic signature) must be identical; in addition the supervisor runs K worker processes (K = 4 quick, 8 thorough) on the same seed, and every process compares the hash of each case's output with the hash the first process recorded for the same tape. Non-trivial: the scenario contains >=1 edit or injection. Distinct = hash(scenario)."
+        "tape -> scenario as in C05 (edit history over the C06/C07/C08 alphabets, or an instrumentation plan of every mode through every path, plus add_func_type of signatures the module already has and, in half of the module plans whose base has struct / array types, 1-4 additions of near-twins of those types (one field's mutability flipped); bases contain duplicate identical types) -> the scenario is built from scratch and encoded R times in the process (R = 3; every build creates fresh hash maps with fresh hasher keys) and the R outputs (bytes, or the panic signature) must be identical; in addition the supervisor runs K worker processes (K = 4 quick, 8 thorough) on the same seed, and every process compares the hash of each case's output with the hash the first process recorded for the same tape. Non-trivial: the scenario contains >=1 edit or injection. Distinct = hash(scenario)."
     }
     fn tape_len(&self) -> usize {
         3072
@@ -443,7 +486,11 @@ impl Driver for Deterministic {
         vec![
             "std's RandomState gives every HashMap instance its own keys (per-thread random base, incremented per map), so rebuilding in-process already varies iteration orders; separate processes vary the base as well",
             "a cross-process mismatch is reported with the tape of the case; its replay re-executes the in-process repetition in a fresh process",
+            "a difference that depends on hasher keys shows in some builds only: every observed difference is real, so the confirmation of a shrunk tape is repeated up to 600 times and a replay rebuilds up to 1024 times, stopping at the first difference",
         ]
+    }
+    fn confirm_attempts(&self) -> usize {
+        600
     }
     fn run(&self, c: &mut Case) -> Outcome {
         let t0 = c.t.clone();
@@ -455,7 +502,9 @@ impl Driver for Deterministic {
         };
         let mut outs: Vec<Result<Vec<u8>, String>> = vec![];
         let mut info_fp = None;
-        let reps = if c.mode == Mode::Replay { 8 } else { 3 };
+        // a replay (fresh process, strict) rebuilds until a difference shows, up to 1024 times:
+        // a de-duplication that depends on hasher keys may differ in one build of a hundred
+        let reps = if c.mode == Mode::Replay { 1024 } else { 3 };
         // decided by the tape fingerprint, not by a tape read: the scenario itself is unchanged
         let side_effects = tape_fp % 4 == 0;
         if side_effects {
@@ -484,6 +533,9 @@ impl Driver for Deterministic {
             match got {
                 Some(g) => outs.push(g),
                 None => return Outcome::Discard("scenario produced no module"),
+            }
+            if outs.len() > 3 && outs.last() != outs.first() {
+                break;
             }
         }
         for k in 1..outs.len() {
